@@ -15,14 +15,18 @@
   `points_are_equal`, both `reorient`s, `FillRule::is_in` (= `Slab.Rule.isIn`), and the event
   stream that each of the five entry points feeds to the queue for polygonal input
   (`tessellate`, `tessellate_path`, `tessellate_with_ids`, `tessellate_polygon`, `builder`:
-  they differ in the endpoint ids only).
+  they differ in the endpoint ids only).  Curved input (quadratic / cubic edges flattened inside
+  the queue builder, the id-based and attribute-carrying entry points) is
+  `Model/Tess/SweepCurves.lean`, which ends in `tessellateImpl` of this file.
 
   Arithmetic: `α` is the tessellator's `f32`, `Wide.W α` the `f64` that `handle_intersections` /
   `process_intersection` widen to (class `Wide`).  Integer overflow, out-of-range indexing,
   `unreachable!()` and the `assert!` of `process_intersection` are explicit `panic` outcomes (the
   harness is built with overflow checks).  The slice sorts (`sort_unstable_by` on the pending
-  edges, `sort_by` on the active-edge keys) are Rust's insertion sort for `len ≤ 20`; longer
-  inputs are reported as `unmodelled sort-gt20`.
+  edges, `sort_by` on the active-edge keys) are Rust's insertion sort for `len ≤ 20`; for longer
+  slices the result is determined by the sort's contract whenever the comparator is a total
+  preorder on the elements (checked, see `consistentOn`), otherwise the outcome is
+  `unmodelled sort-gt20-inconsistent`.
 
   State lives in `St`; every step is a function in `SM = ExceptT Fail (StateM St)` so that the
   output emitted before an error is kept (the geometry builder saw it).
@@ -412,11 +416,46 @@ def insertionSort {γ : Type} (less : γ → γ → Bool) (a : Array γ) : Array
     | some tmp => if i == 0 then a else siftLeft less tmp i a
     | none => a) a
 
+/-! Slices longer than 20 elements: Rust switches to driftsort (`sort_by`) / ipnsort
+(`sort_unstable_by`), which are not modelled.  Their CONTRACT is: for a comparator that is a total
+order on the elements the result is sorted, and `sort_by` is stable.  So the model runs the
+insertion sort and checks, on its output `b`, that the comparator is a total preorder on these very
+elements (`consistentOn`: `less b[i] b[j]` holds exactly when the rank of `i` is below the rank of
+`j`, ranks = the runs of mutually incomparable neighbours).  Then the stable sorted arrangement is
+unique and equals `b` whatever the algorithm; for the unstable sort the elements must in addition
+be pairwise strictly ordered (`strictChain`: no ties).  Otherwise the outcome is
+`unmodelled sort-gt20-inconsistent`. -/
+
+/-- rank of every position of a sorted array: neighbours that are not `less` share a rank -/
+def sortRanks {γ : Type} (less : γ → γ → Bool) (b : Array γ) : Array Nat :=
+  (List.range b.size).foldl (fun (r : Array Nat) i =>
+    match i, b[i - 1]?, b[i]? with
+    | 0, _, _ => r.push 0
+    | _, some x, some y => r.push (r.getD (i - 1) 0 + (if less x y then 1 else 0))
+    | _, _, _ => r.push 0) #[]
+
+/-- `less` restricted to the elements of `b` is the strict weak order "smaller rank" -/
+def consistentOn {γ : Type} (less : γ → γ → Bool) (b : Array γ) : Bool :=
+  let r := sortRanks less b
+  (List.range b.size).all fun j => (List.range j).all fun i =>
+    match b[i]?, b[j]? with
+    | some x, some y => (less x y == decide (r.getD i 0 < r.getD j 0)) && !less y x
+    | _, _ => false
+
+/-- every earlier element is strictly `less` than every later one, never the other way round -/
+def strictChain {γ : Type} (less : γ → γ → Bool) (b : Array γ) : Bool :=
+  (List.range b.size).all fun j => (List.range j).all fun i =>
+    match b[i]?, b[j]? with
+    | some x, some y => less x y && !less y x
+    | _, _ => false
+
 /-- `sort_edges_below` -/
 def sortEdgesBelow : SM α Unit := do
   let s ← get
-  if s.below.size > 20 then throw (.unmodelled "sort-gt20")
-  set { s with below := insertionSort (fun a b => decide (a.sortKey < b.sortKey)) s.below }
+  let less := fun (a b : PendingEdge α) => decide (a.sortKey < b.sortKey)
+  let sorted := insertionSort less s.below
+  if s.below.size > 20 && !strictChain less sorted then throw (.unmodelled "sort-gt20-inconsistent")
+  set { s with below := sorted }
 
 /-- `merge_coincident_edges(a_idx, b_idx)` -/
 def mergeCoincidentEdges (aIdx bIdx : Nat) : SM α Unit := do
@@ -673,8 +712,8 @@ def sortActiveEdges : SM α Unit := do
       prevX := x
     i := i + 1
   if keys.size ≥ 2 && anyNaNKey keys then throw (.panic "partial_cmp unwrap on NaN")
-  if keys.size > 20 then throw (.unmodelled "sort-gt20")
   let sorted := insertionSort (keyLess s.active) keys
+  if keys.size > 20 && !consistentOn (keyLess s.active) sorted then throw (.unmodelled "sort-gt20-inconsistent")
   let mut edges : Array (ActiveEdge α) := #[]
   for k in sorted do
     match s.active[k.2]? with
@@ -695,7 +734,8 @@ def sortActiveEdges : SM α Unit := do
             | .error f => throw f
         else
           wn := wn + e.winding
-  set { s with active := edges }
+  -- (`modify`, not `set { s with .. }`: the coverage bit 19 marked above must survive)
+  modify fun s' => { s' with active := edges }
 
 /-- `recover_from_error` -/
 def recoverFromError : SM α Unit := do
